@@ -13,6 +13,7 @@
 #include <cstdlib>
 #include <functional>
 #include <memory>
+#include <set>
 #include <string>
 #include <thread>
 #include <vector>
@@ -21,6 +22,27 @@ namespace cocls_verif {
 
 struct logged_event : event {
     int thread = -1;
+};
+
+// Table of (operation, enclosing function of the call site, memory orders as passed by the call site)
+// observed over the whole process; written to $VSCHED_MOTABLE at exit.  It is the input from which
+// the memory-order constants of the weak-memory models are generated (DESIGN 4.5).
+struct motable {
+    std::set<std::string> rows;
+    static motable &get() { static motable m; return m; }
+    void record(const event &e) {
+        if (e.op == op_t::mark || e.op == op_t::na_read || e.op == op_t::na_write) return;
+        std::string r = std::string(op_name(e.op)) + "\t" + e.func + "\t" + mo_name(e.mo) + "\t" + mo_name(e.mo_fail);
+        rows.insert(std::move(r));
+    }
+    ~motable() {
+        const char *path = getenv("VSCHED_MOTABLE");
+        if (!path) return;
+        FILE *f = fopen(path, "w");
+        if (!f) return;
+        for (auto &r : rows) fprintf(f, "%s\n", r.c_str());
+        fclose(f);
+    }
 };
 
 class vsched : public handler {
@@ -126,6 +148,7 @@ public:
     std::vector<logged_event> &log() { return _log; }
     void clear_log() { _log.clear(); }
     bool log_enabled = true;
+    bool record_motable = getenv("VSCHED_MOTABLE") != nullptr;
     bool yield_after = false;   // also park after every operation (see post())
     // operations for which the harness states that their outcome does not depend on the schedule
     // (documented per replayer); they are executed without giving up the run token
@@ -144,12 +167,15 @@ public:
     void post(event &e) override {
         thread_ctl *s = self();
         if (!s) return;
+        internal_allocs++;
+        if (record_motable) motable::get().record(e);
         if (log_enabled) {
             logged_event le;
             static_cast<event &>(le) = e;
             le.thread = s->id;
             _log.push_back(le);
         }
+        internal_allocs--;
         if (yield_after && !(no_yield && no_yield(e))) {
             // finest grain: the thread-local code following the operation is a step of its own
             s->pending = e;
